@@ -31,6 +31,32 @@ def run(tier, replay):
     modes = [("txn", c.seed * 1000 + i, [25, 40] if tier == "quick" else [30, 50]) for i in range(1 if tier == "quick" else 8)]   # snapshot re-dumps make a run quadratic in its length: many medium runs
     dbtrace.CLASSES["C03"] = ("snapshot:", "visibility:", "txn-result:", "txn-state:", "result:", "state:", "events:", "failed-write-changed-state:", "index-content:", "structure:")
     dbtrace.run_modes(c, "C03", bins, work, modes, nontrivial)
+    # ---- spec -> code: every behaviour of Txn.tla up to a depth bound, replayed on real engines -------------------
+    import json
+    d = os.path.join(work, "gentxn")
+    os.makedirs(d)
+    V.stage_spec(d, ["Txn.tla", "GenTxn.tla", "GenTxn.cfg"])
+    json.dump({"depth": 6 if tier == "quick" else 7}, open(os.path.join(d, "mcparams.json"), "w"))
+    r = V.tlc(d, "GenTxn.tla", cfg="GenTxn.cfg", timeout=1800, heap="16g")
+    c.add_tlc(r)
+    if r.violated:
+        raise V.Inconclusive("GenTxn stopped: %s" % r.violated)
+    npaths = 0
+    with open(os.path.join(d, "paths.ndjson"), "w") as f:
+        for line in r.output.splitlines():
+            if line.startswith('<<"PATH", "'):
+                f.write(line[len('<<"PATH", "'):-3].replace('\\"', '"') + "\n")
+                npaths += 1
+    if npaths == 0:
+        raise V.Inconclusive("GenTxn emitted no behaviours")
+    summary, recs = dbtrace.record(c, bins["dbt"], "txnreplay", d, c.seed, [os.path.join(d, "paths.ndjson")])
+    if summary.get("cases") != npaths:
+        raise V.Inconclusive("the replayer read %s of %d behaviours" % (summary.get("cases"), npaths))
+    for rec in recs:
+        if rec.get("kind") == "txnreplay":
+            c.violation("txn-replay:%s" % rec["what"].split(":", 1)[-1][:60], "behaviour %s of the transaction model replayed on the real engine: %s" % (
+                " ".join(rec["path"]), rec["what"]), rec)
+    c.cov["model_behaviours_replayed_on_impl"] = npaths
     d = os.path.join(work, "mc")
     os.makedirs(d)
     V.stage_spec(d, ["Txn.tla", "MCTxn.tla", "MCTxn.cfg"])
